@@ -5,6 +5,7 @@ XML-legal non-empty text without edge whitespace, coordinates on every element).
 `to_pagexml()` tree is walked with lxml into an abstract tree and compared with the model's export;
 `to_pagexml(tostring=True)` is fed to `parse_pagexml_file` and the re-parsed scan is compared with
 the exported document (oracle) and with what the model says the parser reads (correspondence).
+Case kind `history` (wave 4): sequences of exports on ONE document, every product judged after the last one.
 """
 from __future__ import annotations
 
@@ -242,6 +243,108 @@ class Gen7(G.Gen):
         return s
 
 
+# ---------------------------------------------------------------------------------------
+# WAVE 4: export histories (used objects, repeated calls, all entry points of the export)
+# ---------------------------------------------------------------------------------------
+
+def _T(path):
+    return {'path': path, 'string': False}
+
+
+def _S(path):
+    return {'path': path, 'string': True}
+
+
+def export_paths(spec, route) -> List[List[Any]]:
+    """the document itself ([]) and every region / line / word below it (each is an entry point of the export)"""
+    return [[]] + [p for p in G.sub_paths(spec, route) if all(a in ('text_regions', 'lines', 'words') for a, _ in p)]
+
+
+def _spec_at(spec, path):
+    key = {'text_regions': 'regions', 'lines': 'lines', 'words': 'words'}
+    for a, i in path:
+        spec = spec[key[a]][i]
+    return spec
+
+
+def history_steps(rng: random.Random, paths: List[List[Any]]) -> List[Dict[str, Any]]:
+    """one export history: the patterns a caller produces (keep the tree, export again as a string / export a part /
+    export the part first / a part and a part of it …) and random sequences"""
+    subs = paths[1:]
+    root = paths[0]
+    form = lambda p: _S(p) if rng.random() < 0.5 else _T(p)  # noqa
+    pat = rng.choice(['tree-string', 'tree-tree', 'tree-sub', 'sub-tree', 'nested', 'string-tree-string', 'random', 'random'])
+    if not subs and pat in ('tree-sub', 'sub-tree', 'nested'):
+        pat = 'tree-string'
+    if pat == 'tree-string':
+        return [_T(root), _S(root)]
+    if pat == 'tree-tree':
+        return [_T(root), _T(root)]
+    if pat == 'tree-sub':
+        return [_T(root), form(rng.choice(subs))]
+    if pat == 'sub-tree':
+        return [_T(rng.choice(subs)), form(root)]
+    if pat == 'nested':
+        p = rng.choice(subs)
+        inner = [q for q in subs if len(q) > len(p) and q[:len(p)] == p]
+        q = rng.choice(inner) if inner else root
+        pair = [_T(p), form(q)]
+        if rng.random() < 0.5:
+            pair = [_T(q), form(p)]
+        return pair
+    if pat == 'string-tree-string':
+        return [_S(root), _T(root), _S(root)]
+    steps = [form(rng.choice(paths if rng.random() < 0.6 else [root])) for _ in range(rng.randint(2, 5))]
+    for _ in range(rng.choice([0, 1, 2])):
+        # other read accesses of the library on the same objects between the exports
+        p = rng.choice(paths)
+        read = rng.choice(['json', 'stats', 'get_words', 'num_words'] + (['get_lines', 'get_inner_text_regions'] if not p or p[-1][0] == 'text_regions' else []))
+        steps.insert(rng.randint(0, len(steps) - 1), {'path': p, 'string': False, 'read': read})
+    return steps
+
+
+def gen_shares(rng: random.Random, spec, route) -> List[Dict[str, Any]]:
+    """objects shared between elements: one Baseline object on two lines, one Coords object on two elements, one line
+    listed in two regions"""
+    paths = export_paths(spec, route)
+    lines = [p for p in paths if p and p[-1][0] == 'lines']
+    regions = [p for p in paths if p and p[-1][0] == 'text_regions']
+    based = [p for p in lines if _spec_at(spec, p).get('baseline')]
+    out = []
+    kinds = rng.sample(['baseline', 'coords', 'attach'], rng.choice([1, 1, 2]))
+    for k in kinds:
+        if k == 'baseline' and based and len(lines) >= 2:
+            a = rng.choice(based)
+            b = rng.choice([p for p in lines if p != a])
+            out.append({'op': 'baseline', 'from': a, 'to': b})
+        elif k == 'coords' and len(lines) >= 2:
+            a, b = rng.sample(lines, 2)
+            out.append({'op': 'coords', 'from': a, 'to': b})
+        elif k == 'attach' and lines and len(regions) >= 2:
+            l = rng.choice(lines)
+            other = [r for r in regions if r != l[:-1] and r[:len(l)] != l]
+            if other:
+                out.append({'op': 'attach', 'line': l, 'to': rng.choice(other)})
+    return out
+
+
+def history_spec(xml: bool):
+    """the fixed document of the exhaustive two-export histories: two regions, a nested region, lines with and without
+    baseline, words"""
+    L = lambda i, **k: dict({'cls': 'line', 'id': i, 'coords': G._P(0, 0, 90, 10), 'text': 'a b', 'conf': None, 'baseline': None,
+                             'words': []}, **k)
+    W = lambda i, **k: dict({'cls': 'word', 'id': i, 'coords': G._P(0, 0, 4, 4), 'text': 'a', 'conf': None}, **k)
+    R = lambda i, **k: dict({'cls': 'text_region', 'id': i, 'coords': G._P(0, 0, 100, 50), 'lines': [], 'regions': []}, **k)
+    spec = {'cls': 'scan', 'id': 'h1.jpg', 'coords': G._P(0, 0, 100, 200), 'size': [100, 200], 'tables': [],
+            'regions': [R('r1', lines=[L('l1', baseline=[[0, 9], [40, 8], [90, 9]], words=[W('w1'), W('w2', text='b')]),
+                                       L('l2', text=None)],
+                          regions=[R('r3', lines=[L('l4', baseline=[[0, 45], [90, 46]])])]),
+                        R('r2', lines=[L('l3', baseline=[[0, 30], [90, 30]], conf={'f': '0.5'})])]}
+    if not xml:
+        spec.update(lines=[], pages=[], columns=[], orientation=None)
+    return spec
+
+
 def corpus() -> List[Case]:
     L = lambda i, **k: dict({'cls': 'line', 'id': i, 'coords': G._P(), 'text': 'a b'}, **k)
     W = lambda i, **k: dict({'cls': 'word', 'id': i, 'coords': G._P(0, 0, 4, 4), 'text': 'a'}, **k)
@@ -275,6 +378,50 @@ def corpus() -> List[Case]:
     add(scan(regions=[R('r1', lines=[L('l2', text=None, conf={'f': '0.7'})])]), 'C07:conf-without-text', route='xml')
     add(dict(scan(regions=[R('r1', lines=[L('l1')])]), size=[0, 200]), 'C07:image-size-missing', route='xml')
     return out
+
+
+def _describe(doc) -> Dict[str, Any]:
+    """what the oracle needs to know about an exported element, read BEFORE it is exported"""
+    n = type(doc).__name__
+    return {'cls': n,
+            'content': (c_scan(doc) if n == 'PageXMLScan' else c_region(doc) if n == 'PageXMLTextRegion'
+                        else c_line(doc) if n == 'PageXMLTextLine' else c_word(doc)),
+            'ids': sorted(C07._ids(doc))}
+
+
+def _read_back(out: Dict[str, Any], s: str) -> None:
+    """the exported XML text read with xmltodict and with the real parser"""
+    from harness.props import _doc as D
+    out['xmltodict'] = D.real_todict(s)
+    try:
+        from pagexml.parser import parse_pagexml_file
+        s2 = _quiet(lambda: parse_pagexml_file('reparsed.xml', pagexml_data=s))
+        out['reparsed'] = c_scan(s2)
+        out['reparsed_dump'] = D.dump_scan(s2)
+    except Exception as e:  # noqa
+        out['reparse_err'] = err_name(e)
+
+
+def _follow(doc, path):
+    for attr, idx in path:
+        doc = getattr(doc, attr)[idx]
+    return doc
+
+
+def _share(root, sh) -> None:
+    """objects shared between elements of one document (all reachable through the public API):
+    baseline / coords: element `to` gets the very Baseline / Coords OBJECT of element `from`;
+    attach: the line `line` is also listed in the region `to` (one line object in two containers)"""
+    if sh['op'] in ('baseline', 'coords'):
+        a, b = _follow(root, sh['from']), _follow(root, sh['to'])
+        v = getattr(a, sh['op'])
+        if v is None:
+            raise ValueError('nothing to share')
+        setattr(b, sh['op'], v)
+    elif sh['op'] == 'attach':
+        _follow(root, sh['to']).lines.append(_follow(root, sh['line']))
+    else:
+        raise ValueError(sh['op'])
 
 
 class C07(Check):
@@ -336,7 +483,15 @@ class C07(Check):
         'text, xheight and a falsy orientation are not exported; table rows/cells are never exported. CORRESPONDENCE LEVEL: exported '
         'trees and xmltodict values are compared up to the order of sibling elements with DIFFERENT tags (same-tag siblings in '
         'order); an export / re-parse that raises is compared as raising-or-not; scans holding table regions are outside the '
-        'quantifier (recorded only); extra scan.metadata keys of the re-parsed scan are ignored.')
+        'quantifier (recorded only); extra scan.metadata keys of the re-parsed scan are ignored. WAVE 4 (case kind '
+        '`history`): the model export is a pure function of the exported element, so ONE model answer per exported element must '
+        'match EVERY export of it in a history; the harness keeps every product (lxml tree or string) of a sequence of '
+        'to_pagexml() / to_pagexml(tostring=True) calls on the document and on its regions / lines / words (other read accesses — '
+        'json, stats, traversals — in between), and judges all of them AFTER the last export (tree walked and serialised then, '
+        'parsed back, compared with the content read before the first export), plus that the document itself is unchanged; '
+        'families: every ordered pair of exports on a fixed document (7 entry points x tree/string, both routes), caller patterns '
+        'and random sequences on generated documents, documents whose elements share one Baseline / Coords object or list one '
+        'line in two regions, and lines without own text whose words have text crossed with the other optional features.')
     assumptions = [
         'generated documents: every element has coordinates (mandatory in PAGE; the parser needs them on lines and words); text '
         'is non-empty XML-legal without leading/trailing whitespace (xmltodict strips it: known finding C01:text-edge-whitespace); '
@@ -351,7 +506,8 @@ class C07(Check):
         'the parser is the C01 model (parseScan); its own tie to parser.py is C01\'s correspondence plus, here, the comparison of '
         'parseScan(toDict(docX tree)) with parse_pagexml_file on the real exported string on every case',
     ]
-    nontrivial_rule = 'distinct case inputs; non-trivial = an export of a document with at least one line, or a tag pair'
+    nontrivial_rule = ('distinct case inputs; non-trivial = an export (or export history) of a document with at least one '
+                       'line, or a tag pair')
 
     def __init__(self):
         self._abs: Dict[int, Any] = {}
@@ -393,6 +549,79 @@ class C07(Check):
                 s['tables'] = [t]
                 # ("all text-hierarchy documents …": a scan holding a table region is not one — mirrored, recorded only)
                 out.append(Case('export-table', {'spec': s, 'route': 'api'}, ['api', 'table', OUTSIDE]))
+        out.extend(self._history_cases(rng, tier))
+        return out
+
+    def _history_cases(self, rng: random.Random, tier: str) -> List[Case]:
+        """WAVE 4.  pairs: on one fixed document EVERY ordered pair of exports (document / region / nested region / line /
+        word x tree / string), both routes; history: generated documents with the caller patterns of history_steps and
+        random sequences; shared: documents whose elements share a Baseline / Coords object or a line, exported once
+        and in sequences; rare: lines WITHOUT own text whose words have text, crossed with the other optional features"""
+        quick = tier == 'quick'
+        out: List[Case] = []
+        for xml in (True, False):
+            spec, route = history_spec(xml), 'xml' if xml else 'api'
+            targets = [[], [['text_regions', 0]], [['text_regions', 0], ['text_regions', 0]], [['text_regions', 0], ['lines', 0]],
+                       [['text_regions', 0], ['lines', 0], ['words', 0]], [['text_regions', 1]],
+                       [['text_regions', 0], ['text_regions', 0], ['lines', 0]]]
+            forms = [_T(p) for p in targets] + [_S(p) for p in targets]
+            for a in forms:
+                for b in forms:
+                    if quick and a['string'] and b['string'] and a['path'] != b['path']:
+                        continue            # (two strings of different elements: kept for the thorough tier)
+                    out.append(Case('history', {'spec': spec, 'route': route, 'steps': [a, b]}, ['history', 'pairs', route]))
+            # the same lines sharing objects
+            for share in ([{'op': 'baseline', 'from': [['text_regions', 0], ['lines', 0]], 'to': [['text_regions', 1], ['lines', 0]]}],
+                          [{'op': 'baseline', 'from': [['text_regions', 0], ['lines', 0]], 'to': [['text_regions', 0], ['lines', 1]]}],
+                          [{'op': 'coords', 'from': [['text_regions', 0], ['lines', 0]], 'to': [['text_regions', 1], ['lines', 0]]}],
+                          [{'op': 'attach', 'line': [['text_regions', 0], ['lines', 0]], 'to': [['text_regions', 1]]}],
+                          [{'op': 'attach', 'line': [['text_regions', 1], ['lines', 0]], 'to': [['text_regions', 0], ['text_regions', 0]]}]):
+                for steps in ([_T([])], [_S([])], [_T([['text_regions', 0]]), _T([['text_regions', 1]])],
+                              [_T([['text_regions', 1]]), _S([['text_regions', 0]])], [_T([]), _T([['text_regions', 1]]), _S([])],
+                              [_T([['text_regions', 1], ['lines', 0]]), _T([['text_regions', 0], ['lines', 0]])]):
+                    out.append(Case('history', {'spec': spec, 'route': route, 'steps': steps, 'share': share},
+                                    ['history', 'shared', share[0]['op'], route]))
+        n = 160 if quick else 1600
+        for i in range(n):
+            xml = rng.random() < 0.5
+            g = Gen7(rng, xml)
+            spec = g.scan()
+            for _ in range(4):
+                if any(l.get('baseline') for r in spec['regions'] for l in r['lines']):
+                    break
+                spec = g.scan()
+            route = 'xml' if xml else 'api'
+            if not xml and rng.random() < 0.2 and spec['regions']:
+                spec = rng.choice(spec['regions'])          # an API-built region as the document
+            paths = export_paths(spec, route)
+            inp = {'spec': spec, 'route': route, 'steps': history_steps(rng, paths)}
+            tags = ['history', route]
+            if rng.random() < 0.3:
+                sh = gen_shares(rng, spec, route)
+                if sh:
+                    inp['share'] = sh
+                    tags += ['shared'] + [x['op'] for x in sh]
+            out.append(Case('history', inp, tags))
+        # rare shape: a line without text of its own whose words carry text (word-level recogniser output), crossed with
+        # baseline / confidence / custom attributes of the line and words with / without text, single export and history
+        for i in range(40 if quick else 400):
+            xml = rng.random() < 0.5
+            g = Gen7(rng, xml)
+            spec = g.scan()
+            if not spec['regions']:
+                spec['regions'] = [g.region(0)]
+            for r in spec['regions'][:2]:
+                l = g.line()
+                l['text'] = None
+                l['conf'] = g.conf() if not xml or rng.random() < 0.5 else None
+                l['words'] = [g.word() for _ in range(rng.choice([1, 2, 3]))]
+                l['words'][0]['text'] = l['words'][0]['text'] or 'w'
+                r['lines'] = r['lines'][:rng.choice([0, 1])] + [l] + r['lines'][1:]
+            route = 'xml' if xml else 'api'
+            out.append(Case('export', {'spec': spec, 'route': route}, [route, 'scan', 'wordonly-line']))
+            if i % 2:
+                out.append(Case('history', {'spec': spec, 'route': route, 'steps': history_steps(rng, export_paths(spec, route))},
+                                ['history', route, 'wordonly-line']))
         return out
 
     # ---------------------------------------------------------------- implementation
@@ -407,6 +636,8 @@ class C07(Check):
                 except Exception as e:  # noqa
                     return err_name(e)
             return {'valid': one(X.is_valid_pagexml_sub_element), 'singleton': one(X.is_pagexml_singleton_relation)}
+        if case.kind == 'history':
+            return self._impl_history(case)
         try:
             doc = _quiet(lambda: G.build(case.input))
             a0 = G.abstract(doc)
@@ -414,11 +645,7 @@ class C07(Check):
             self._abs[id(case)] = None
             return {'unbuildable': err_name(e)}
         self._abs[id(case)] = a0
-        out: Dict[str, Any] = {'cls': type(doc).__name__}
-        n = type(doc).__name__
-        out['content'] = (c_scan(doc) if n == 'PageXMLScan' else c_region(doc) if n == 'PageXMLTextRegion'
-                          else c_line(doc) if n == 'PageXMLTextLine' else c_word(doc))
-        out['ids'] = sorted(self._ids(doc))
+        out = _describe(doc)
         try:
             tree = _quiet(lambda: doc.to_pagexml())
         except Exception as e:  # noqa
@@ -433,16 +660,83 @@ class C07(Check):
         except Exception as e:  # noqa
             out['string_err'] = err_name(e)
             return out
-        from harness.props import _doc as D
-        out['xmltodict'] = D.real_todict(s)
-        try:
-            from pagexml.parser import parse_pagexml_file
-            s2 = _quiet(lambda: parse_pagexml_file('reparsed.xml', pagexml_data=s))
-            out['reparsed'] = c_scan(s2)
-            out['reparsed_dump'] = D.dump_scan(s2)
-        except Exception as e:  # noqa
-            out['reparse_err'] = err_name(e)
+        _read_back(out, s)
         return out
+
+    def _impl_history(self, case: Case) -> Any:
+        """WAVE 4: an export HISTORY on one document.  The document is built once (optionally with objects shared
+        between elements: one Baseline / Coords object on two lines, one line listed in two regions), every export of
+        the sequence (of the document or of a sub-element; as a tree or as a string) is kept, and only AFTER the last
+        export every product is looked at: walked, serialised if it is a tree, parsed back.  Each product must be the
+        valid export of what was exported, whatever was exported after it."""
+        from lxml import etree
+        inp = case.input
+        try:
+            root = _quiet(lambda: G.build({'spec': inp['spec'], 'route': inp['route']}))
+            for sh in inp.get('share', []):
+                _share(root, sh)
+            paths: List[Any] = []
+            for st in inp['steps']:
+                if st['path'] not in paths:
+                    paths.append(st['path'])
+            targets = [_follow(root, p) for p in paths]
+            a0s = [G.abstract(t) for t in targets]
+            bases = [_describe(t) for t in targets]
+            before = G.abstract(root)
+        except Exception as e:  # noqa
+            self._abs[id(case)] = None
+            return {'unbuildable': err_name(e)}
+        self._abs[id(case)] = a0s
+        products = []
+        for st in inp['steps']:
+            t = targets[paths.index(st['path'])]
+            if st.get('read'):
+                # another read access between the exports (JSON view, statistics, traversals): its answer is not the
+                # subject here, only that the exports around it are still right
+                try:
+                    v = getattr(t, st['read'], None)
+                    _quiet(lambda: v() if callable(v) else v)
+                except Exception:  # noqa
+                    pass
+                products.append(('read', None))
+                continue
+            try:
+                products.append(('ok', _quiet(lambda: t.to_pagexml(tostring=True) if st['string'] else t.to_pagexml())))
+            except Exception as e:  # noqa
+                products.append(('err', err_name(e)))
+        try:
+            after = G.abstract(root)
+            changed = G._first_diff(G._canon_abs(before), G._canon_abs(after))
+        except Exception as e:  # noqa
+            changed = 'unreadable:' + err_name(e)
+        steps = []
+        for i, (st, (tag, prod)) in enumerate(zip(inp['steps'], products)):
+            if tag == 'read':
+                continue
+            pi = paths.index(st['path'])
+            o = dict(bases[pi], pi=pi, string=st['string'], i=i)
+            if tag == 'err':
+                o['export_err'] = prod
+            elif st['string']:
+                o['string_head'] = prod[:40]
+                try:
+                    o['tree'] = walk(etree.fromstring(prod.encode('utf-8')))
+                    o['string_tree_same'] = True
+                    _read_back(o, prod)
+                except Exception as e:  # noqa
+                    o['tree'] = None
+                    o['string_err'] = 'not-xml:' + err_name(e)
+            else:
+                try:
+                    o['tree'] = walk(prod)
+                    s = etree.tostring(prod, pretty_print=True, encoding='UTF-8', xml_declaration=True).decode()
+                    o['string_tree_same'] = strip_ns(walk(etree.fromstring(s.encode('utf-8')))) == strip_ns(o['tree'])
+                    _read_back(o, s)
+                except Exception as e:  # noqa
+                    o.setdefault('tree', None)
+                    o['string_err'] = 'tree-not-serialisable:' + err_name(e)
+            steps.append(o)
+        return {'steps': steps, 'changed': changed}
 
     @staticmethod
     def _ids(doc):
@@ -463,6 +757,10 @@ class C07(Check):
         a0 = self._abs.get(id(case))
         if not a0:
             return []
+        if case.kind == 'history':
+            # the model's export is a pure function of the exported element: ONE answer per exported element, which
+            # every export of that element in the history has to match, whatever was exported before or after it
+            return [{'p': 'C07', 'op': 'export', 'args': {'doc': a}} for a in a0]
         return [{'p': 'C07', 'op': 'export', 'args': {'doc': a0}}]
 
     def compare(self, case, out, model_out):
@@ -473,6 +771,20 @@ class C07(Check):
             # a rule function that rejects a pair (unknown element name) is compared as raising-or-not
             rz = lambda d: {k: ('raises' if isinstance(v, str) else v) for k, v in d.items()} if isinstance(d, dict) else d
             return None if rz(m.get('ok')) == rz(out) else f'impl={out} model={m}'
+        if case.kind == 'history':
+            if 'steps' not in out:
+                return None
+            for st in out['steps']:
+                i = st['i']
+                if st.get('tree') is None and 'export_err' not in st:
+                    return f'export {i} of the history: the product is no XML tree ({st.get("string_err")}), the model exports'
+                d = self._compare_export('export', st, model_out[st['pi']])
+                if d is not None:
+                    return f'export {i} of the history ({"string" if st["string"] else "tree"} of element {st["pi"]}): {d}'
+            return None
+        return self._compare_export(case.kind, out, m)
+
+    def _compare_export(self, kind: str, out, m):
         if 'export_err' in out:
             # (no exception class is stated: an export that raises is compared as raising-or-not)
             return None if 'err' in m else f'impl raises {out["export_err"]}, model {str(m)[:300]}'
@@ -509,7 +821,7 @@ class C07(Check):
         # instances of the theorems: C07_export_tree (the export is the pure tree) and C07_roundtrip
         if mo['exp'] and G._first_diff(mo['tree'], mo['pure_tree']) is not None:
             return f'model: export differs from scanTree at {G._first_diff(mo["tree"], mo["pure_tree"])}'
-        if case.kind == 'export' and not mo['rt']:
+        if kind == 'export' and not mo['rt']:
             return 'model: a generated document of the property is outside rtDoc (the quantifier of C07_roundtrip)'
         if mo['rt']:
             if 'ok' not in mp:
@@ -518,7 +830,7 @@ class C07(Check):
             if d is not None:
                 return f'model: parseScan(toDict(export)) differs from contentScan at {d}'
         # the model's reading of its own export equals the content read from the document …
-        if case.kind == 'export' and out['cls'] in ('PageXMLScan', 'PageXMLTextRegion'):
+        if kind == 'export' and out['cls'] in ('PageXMLScan', 'PageXMLTextRegion'):
             d = G._first_diff(mo['doc_regions'], mo['read_regions'])
             if d is not None:
                 return f'model: content read from the export differs from the document at {d}'
@@ -536,17 +848,50 @@ class C07(Check):
 
     # ---------------------------------------------------------------- oracle
     def oracle(self, case: Case, out: Any) -> List[Finding]:
+        # (an output of the real code that cannot even be read by the judgement is an outcome to report, not a crash)
+        try:
+            return self._oracle(case, out)
+        except Exception as e:  # noqa
+            return [Finding('C07:answer-shape', f'the export products cannot be judged: {type(e).__name__}: {e}', case, _strip(out))]
+
+    def _oracle(self, case: Case, out: Any) -> List[Finding]:
         fs: List[Finding] = []
-        if case.kind != 'export' or 'unbuildable' in out:
+        if case.kind not in ('export', 'history') or 'unbuildable' in out:
             return fs
         forced = [t[4:] for t in case.tags if t.startswith('key:')]
 
         def bad(key, what):
             fs.append(Finding(forced[0] if forced else f'C07:{key}', what, case, _strip(out)))
+        if case.kind == 'history':
+            # every product of the history, looked at after the LAST export, is judged like a single export …
+            for st in out['steps']:
+                i = st['i']
+                form = 'string' if st['string'] else 'tree'
+                self._judge_export(st, lambda key, what, i=i, form=form, st=st: bad(
+                    f'history:{form}:{key}', f'export {i} of the history {self._history_text(case)} (the {form} of the '
+                                             f'{st["cls"]} at {case.input["steps"][i]["path"]}), judged after the last export: {what}'))
+            # … and exporting is a read access: the document is what it was
+            if out['changed'] is not None:
+                bad('history:document-changed', f'after the exports {self._history_text(case)} the document differs at {out["changed"]}')
+            return fs
+        self._judge_export(out, bad)
+        return fs
+
+    @staticmethod
+    def _history_text(case: Case) -> str:
+        return '[' + ', '.join(((st['read'] + ' of ') if st.get('read') else 'str ' if st['string'] else 'tree ') +
+                               ('/'.join(f'{a}[{i}]' for a, i in st['path']) or 'document') for st in case.input['steps']) + ']'
+
+    @staticmethod
+    def _judge_export(out: Any, bad) -> None:
+        """the statement judged on ONE export product (tree as walked, string head, what the parser reads back)"""
         if 'export_err' in out:
             bad('export-raises:' + out['export_err'], f'to_pagexml() of a {out["cls"]} raises {out["export_err"]}')
-            return fs
+            return
         t = out['tree']
+        if t is None:
+            bad('string-raises:' + out.get('string_err', '?'), f'the export product is not a well-formed XML document: {out.get("string_err")}')
+            return
         # well-formed PcGts tree in the PAGE namespace, one Metadata, one Page
         if t['tag'] != 'PcGts' or not t['ns'] or PAGE_NS_PREFIX not in t['ns']:
             bad('root', f'root is {{{t["ns"]}}}{t["tag"]}')
@@ -573,15 +918,15 @@ class C07(Check):
         # complete XML document
         if 'string_err' in out:
             bad('string-raises:' + out['string_err'], 'to_pagexml(tostring=True) raises')
-            return fs
-        if not out['string_head'].startswith('<?xml'):
+            return
+        if 'string_head' in out and not out['string_head'].startswith('<?xml'):
             bad('no-declaration', f'string form starts with {out["string_head"]!r}')
         if not out.get('string_tree_same'):
             bad('string-differs', 'the string form does not parse to the tree to_pagexml() returns')
         # parse back
         if 'reparse_err' in out:
             bad('reparse-raises:' + out['reparse_err'], f'parse_pagexml_file on the exported XML raises {out["reparse_err"]}')
-            return fs
+            return
         got = out['reparsed']
         want = out['content']
         if out['cls'] == 'PageXMLScan':
@@ -598,7 +943,6 @@ class C07(Check):
             if d is not None:
                 bad(f'content:{G._diff_key(d) if G._diff_key(d) != "root" else name}',
                     f'{name}: the re-parsed scan differs from the exported document at {d}')
-        return fs
 
     def nontrivial(self, case: Case) -> bool:
         if case.kind == 'rules':
@@ -609,7 +953,41 @@ class C07(Check):
     def shrink_candidates(self, case: Case):
         if case.kind == 'rules':
             return []
+        if case.kind == 'history':
+            return self._shrink_history(case)
         return G.CHECK.shrink_candidates(case)
+
+    @staticmethod
+    def _shrink_history(case: Case):
+        inp = case.input
+        steps, share = inp['steps'], inp.get('share', [])
+        for i in range(len(steps)):
+            if len(steps) > 1:
+                yield Case('history', dict(inp, steps=steps[:i] + steps[i + 1:]), case.tags)
+        for i in range(len(share)):
+            yield Case('history', dict(inp, share=share[:i] + share[i + 1:]), case.tags)
+        # a smaller document: only parts that no step / share path runs through can go (a variant that cuts a path is
+        # unbuildable and therefore rejected by the minimiser)
+        used = [st['path'] for st in steps] + [p for sh in share for k, p in sh.items() if k != 'op']
+        key = {'text_regions': 'regions', 'lines': 'lines', 'words': 'words'}
+
+        def cuts(spec, prefix):
+            for attr, k in key.items():
+                kids = spec.get(k) or []
+                for i in range(len(kids) - 1, -1, -1):
+                    here = prefix + [[attr, i]]
+                    # removable: no used path goes through this child or through a later sibling (indices would shift)
+                    if not any(len(u) >= len(here) and u[:len(prefix)] == prefix and u[len(prefix)][0] == attr and u[len(prefix)][1] >= i
+                               for u in used):
+                        yield dict(spec, **{k: kids[:i] + kids[i + 1:]})
+                for i, c in enumerate(kids):
+                    for v in cuts(c, prefix + [[attr, i]]):
+                        yield dict(spec, **{k: kids[:i] + [v] + kids[i + 1:]})
+            for k in ('custom', 'meta', 'ro', 'roa', 'orientation', 'conf', 'xml_metadata'):
+                if spec.get(k) is not None:
+                    yield dict(spec, **{k: None})
+        for v in cuts(inp['spec'], []):
+            yield Case('history', dict(inp, spec=v), case.tags)
 
 
 def _canon_root(v):
@@ -624,7 +1002,11 @@ def _canon_root(v):
 
 
 def _strip(out):
-    return {k: v for k, v in out.items() if k not in ('tree',)} if isinstance(out, dict) else out
+    if not isinstance(out, dict):
+        return out
+    if 'steps' in out:
+        return dict(out, steps=[{k: v for k, v in st.items() if k not in ('tree', 'xmltodict', 'reparsed_dump')} for st in out['steps']])
+    return {k: v for k, v in out.items() if k not in ('tree',)}
 
 
 CHECK = C07()
